@@ -74,7 +74,44 @@ def pause_value_rule(ctx):
 
 
 
+def invoking_ruleset_rule(ctx):
+    """The ruleset a plugin reaches through OomdContext::getInvokingRuleset() is the ruleset whose chain runs it: runOnceImpl - which is
+    what runs for a plain ruleset and for every per-cgroup instance - publishes `this` before every run_action_chain, and nobody else
+    publishes a ruleset.  (A kill plugin applies its own post_action_delay to the ruleset it is handed: handed the template of a
+    ruleset-level cgroup pattern, the pause lands on an object whose pause state nothing reads.)  Shared by C05 and C11."""
+    P = ctx.prog
+    impl = ctx.fn1("Oomd::Engine::Ruleset::runOnceImpl")
+    rac = impl.calls("Ruleset::run_action_chain")
+    sets = [i for i in impl.calls("OomdContext::setInvokingRuleset") if impl.text(impl.nodes[i]["args"][0]) == "this"]
+    fl = Flow(P, impl, events={i: [("set", "invoking_ruleset_set")] for i in sets}, cg=ctx.cg)
+    firing_here = firing_edge_in_impl(ctx)
+    for i in rac:
+        which = "begin" if "begin()" in impl.text(impl.nodes[i]["args"][0]) else "resume"
+        if which == "begin" and not firing_here:
+            continue
+        ctx.check(fl.must(i, "invoking_ruleset_set"), "invoking-ruleset-is-the-running-one:" + which, "must_precede", impl.loc(i),
+                  "setInvokingRuleset(this) precedes run_action_chain(%s) on every path" % which,
+                  "a path reaches run_action_chain(%s) without runOnceImpl having published itself as the invoking ruleset: a plugin's post_action_delay "
+                  "reaches another ruleset object (the template of a per-cgroup ruleset) or none" % which, witness_path(impl, fl, i))
+    n_pub = 0
+    for f in P.fns.values():
+        for i in f.calls("OomdContext::setInvokingRuleset"):
+            a = f.text(f.nodes[i]["args"][0]) if f.nodes[i].get("args") else ""
+            if a in ("std::nullopt", "{}", "std::optional()"):
+                continue
+            n_pub += 1
+            owner_ = f
+            while owner_.kind == "lambda" and owner_.d.get("parentfn") in P.fns:
+                owner_ = P.fns[owner_.d["parentfn"]]
+            ctx.check(owner_.pq == "Oomd::Engine::Ruleset::runOnceImpl" and a == "this", "invoking-ruleset-published-only-by-the-running-ruleset:" + short(owner_), "who-may-call",
+                      f.loc(i), "only runOnceImpl publishes an invoking ruleset, and it publishes itself",
+                      "%s publishes %s as the invoking ruleset: for a ruleset-level cgroup pattern that is the template, not the per-cgroup instance whose chain runs" % (short(owner_), a))
+    ctx.counters["invoking_ruleset_publications"] = n_pub
+    ctx.floor("invoking_ruleset_publications", 1, "setInvokingRuleset(<ruleset>) call sites")
+
+
 def run(ctx):
+    invoking_ruleset_rule(ctx)
     detector_walk_every_tick(ctx, "C05")
     # locals / parameters the rules below refer to by name (a rename makes the analysis 'broken', never a violation)
     ctx.anchor(ctx.fn1('Oomd::Engine::Ruleset::runOnceImpl'), 'run_actions')
